@@ -25,12 +25,17 @@ package server
 // Thread-local mode: the loop talks to other goroutines through channels; only this per-iteration protocol
 // obligation is claimed, nothing about the heap.
 //@ func (*fsmHandler).recvMessageloop
+//@   tag C06 C14 C08
 //@   claims at-call
 //@   at-call table.UpdatePathAttrs4ByteAs( requires handling == bgp.ERROR_HANDLING_NONE || handling == bgp.ERROR_HANDLING_ATTRIBUTE_DISCARD ==> called(ValidateUpdateMsg)
 // ... and "the strongest reaction any of its errors calls for" also when decoding already asked for
 // treat-as-withdraw: the faults only validation finds (missing / unrecognised well-known attribute, duplicate
 // MP_REACH, confederation segments from a non-member, ...) may call for a reset (known finding D34: they are lost)
 //@   at-call table.UpdatePathAttrs4ByteAs( requires handling < bgp.ERROR_HANDLING_SESSION_RESET ==> called(ValidateUpdateMsg)
+// from C14 / C08 "UPDATEs are parsed under the negotiated ... AS-number width": AS_PATH is reconstructed from AS4_PATH
+// only for a peer that speaks 2-octet AS numbers; from a 4-octet speaker the two attributes are discarded
+// (RFC 6793 6), not merged into what it sent
+//@   at-call table.UpdatePathAttrs4ByteAs( requires h.fsm.twoByteAsTrans
 
 // =============================================================================================
 // C08 — session parameters are negotiated as the intersection of both OPEN messages
